@@ -77,6 +77,23 @@ def main(argv=None):
     aggs = pool.run_plan(prop.lower(), items, nworkers=a.workers, time_budget=budget) if items else []
     if xproc is not None:
         xres = xproc.finish()
+    if hasattr(mod, "enumerations"):
+        # plain-CPython enumerations (explicitly NOT solver verdicts; see DESIGN), merged like engine X
+        from vf.engine import xhair
+        if xres is None:
+            xres = dict(coverage=dict(conditions=0, confirmed=0, refuted=0, inconclusive=0, obligations=0, discharged=0,
+                                      per_condition=[]), violations=[], inconclusive_lines=[], errors=[], samples=[])
+        for en in mod.enumerations(a.tier):
+            pr = subprocess.run([sys.executable, "-m", en["module"]], capture_output=True, text=True, env=xhair._env(), cwd=ROOT, timeout=600)
+            try:
+                res = json.loads(pr.stdout.strip().splitlines()[-1])
+            except Exception:  # noqa
+                xres["errors"].append("enumeration %s failed: %s" % (en["module"], (pr.stderr or pr.stdout)[-400:]))
+                continue
+            xres["coverage"].setdefault("enumerations", []).append(dict(module=en["module"], evaluations=res["evaluations"],
+                                                                          operations=res.get("operations"), note=en.get("note", "")))
+            for v in res["violations"]:
+                xres["violations"].append(dict(name="T:" + v["name"], info=v["info"], file=None, func=None, call=None, enumeration=en["module"]))
     wall = time.monotonic() - t0
     return report(prop, a.tier, seed, mod, aggs, xres, wall, verbose=a.v)
 
